@@ -8,7 +8,9 @@ and inside Coq, with Impl (must agree everywhere, Err classes included) and with
 A fraction of the edges is written WITHOUT a 'weight' entry (default 1; D46).  Kind `perm`: >= 10 one-to-one edges covering
 a whole vector in permuted order (identity test of _get_indexed_var_str).  Stream `multiop` (NOT model-tied: node types
 with several operators, structurally identical ones under different names included; real vec vs real non-vec vs a python
-unit-level sum, no Coq Impl)."""
+unit-level sum, no Coq Impl).  Kind `ring`: 14-24 units, sparse with FAN-IN, fill on both sides of 0.1.  Kind `seq`: ONE
+template object compiled 2-3 times (vec -> non-vec, non-vec -> vec, in_place True/False, clear=True): every step must be the
+unit-level sum; the last step of each mode also goes through the Coq comparison."""
 import json, os
 from fractions import Fraction as Fr
 from core import *
@@ -195,17 +197,19 @@ def mo_disagrees(case, r):
 def _raised(e, where):
     return {"raised": type(e).__name__, "where": where, "msg": str(e)[:160]}
 
-def _vector_field(case, vec, tag):
+def _vector_field(case, vec, tag, template=None, in_place=True):
+    """template given: one step of a SEQUENCE of compilations on that one CircuitTemplate object (clear=True, as run() does)"""
     import numpy as np, pyr
     from copy import deepcopy
     raw = bool(case.get("raw"))
     mo = bool(case.get("mo"))
     pyr.reset_pyrates()
     try:
-        c = deepcopy(build_raw(case) if raw else build_mo(case) if mo else build(case))
+        c = template if template is not None else deepcopy(build_raw(case) if raw else build_mo(case) if mo else build(case))
         try:
             func, args, arg_names, state_map = c.get_run_func("vf", 1e-3, file_name=f"m{tag}", backend="default", solver="euler",
-                                                              vectorize=vec, float_precision="float64", in_place=True, clear=False, verbose=False)
+                                                              vectorize=vec, float_precision="float64", in_place=in_place,
+                                                              clear=template is not None, verbose=False)
         except Exception as e:
             return _raised(e, "compile")
         if raw:
@@ -217,6 +221,12 @@ def _vector_field(case, vec, tag):
         # unit positions from the compiled template's own maps (read-only)
         pos = []
         for n, op, xv in names:
+            if not in_place:                                   # the template object keeps no maps of this compilation (non-vectorized only)
+                try:
+                    pos.append(int(state_map[f"{n}/{op}/{xv}"]))
+                except (KeyError, TypeError) as e:
+                    return _raised(e, "positions")
+                continue
             lo = c._vectorization_labels.get(f"{n}/{op}")          # operator relabelled when merged under another name
             key = f"{lo}/{xv}" if lo else f"{c._vectorization_labels.get(n, n)}/{op}/{xv}"
             try:
@@ -281,7 +291,23 @@ def _raw_trajectory(case, vec, tag):
     finally:
         pyr.reset_pyrates()
 
+def _sequence(case):
+    """compile ONE template object several times (vectorize / in_place per step); every step is a vector field"""
+    import pyr
+    pyr.reset_pyrates()
+    c = build(case)
+    steps = []
+    for k, (vec, ip) in enumerate(case["seq"]):
+        steps.append(_vector_field(case, bool(vec), f"s{k}", template=c, in_place=bool(ip)))
+    out = {"steps": steps}
+    for key, flag in (("vec", 1), ("non", 0)):               # the last step of each mode goes through the model comparison
+        idx = [k for k, (vec, ip) in enumerate(case["seq"]) if int(vec) == flag]
+        out[key] = steps[idx[-1]]
+    return out
+
 def impl(case):
+    if case.get("seq"):
+        return _sequence(case)
     if case.get("rtraj"):
         return {"vec": _raw_trajectory(case, True, "v"), "non": _raw_trajectory(case, False, "n")}
     out = {"vec": _vector_field(case, True, "v"), "non": _vector_field(case, False, "n")}
@@ -313,6 +339,18 @@ def py_spec(case, st):
         r = sum(((Fr(1) if w is None else Fr(w)) * srcval(s, sv) for s, w, sv in inc), Fr(0)) if inc else Fr(cl["rdef"])
         out.append(_peval(cl["f"], [x[u], kk[u], r]))
     return out
+
+def seq_disagrees(case, r):
+    """some step of a compile sequence on one template object differs from the unit-level sum"""
+    for o in r.get("steps", []):
+        if "raised" in o:
+            if not py_guards(case):
+                return True
+            continue
+        for st, row in zip(case["states"], o["ok"]):
+            if isinstance(row, dict) or [Fr(v) for v in row] != py_spec(case, st):
+                return True
+    return False
 
 def py_disagrees(case, r):
     """real vec / non-vec vector fields differ from each other or from the unit-level sum (python arithmetic on Fractions)"""
@@ -388,7 +426,12 @@ def gen_case(rng, kind="mixed"):
     fanout (one unit of a singleton class to many units: D32 boundary 9/10), clean (inside every guard), traj (linear, Euler)."""
     linear = kind == "traj"
     clean = kind in ("clean", "traj")
+    base_kind = kind
+    if kind == "seq":
+        kind = "clean"
     ncl = rng.randint(1, 3) if kind not in ("sparse", "fanout", "perm") else rng.randint(2, 3)
+    if kind == "ring":
+        ncl = rng.randint(1, 2)
     classes = []
     while len(classes) < ncl:
         cl = dict(f=gen_f(rng, linear, allow_const=not clean and kind != "perm"),
@@ -401,6 +444,8 @@ def gen_case(rng, kind="mixed"):
     elif kind == "perm":
         n0 = rng.choice([10, 11, 12])
         sizes = [n0, n0] + [rng.choice([1, 2]) for _ in range(ncl - 2)]
+    elif kind == "ring":
+        sizes = [rng.randint(14, 24)] + [rng.choice([1, 2, 3]) for _ in range(ncl - 1)]
     elif kind == "fanout":
         sizes = [rng.choice([9, 10, 11, 12]), 1] + [rng.choice([1, 2, 3]) for _ in range(ncl - 2)]
     elif kind == "traj":
@@ -444,15 +489,31 @@ def gen_case(rng, kind="mixed"):
             return p
         sc = rng.choice([0, 1, 1])                 # source class: the target class itself or the other big class
         tp, sp = perm(), perm()
+        if rng.random() < 0.3:                     # sorted source indices of full length with repeated entries ([0,0,1,...])
+            sp = sorted(rng.randrange(n0) for _ in range(n0))
         for k_ in range(n0):
             edges.append([of(sc)[sp[k_]], of(0)[tp[k_]], "1" if rng.random() < 0.15 else wq()])
+    elif kind == "ring":
+        # large sparse vector with FAN-IN: every target index repeated, fill = E / (distinct targets x distinct sources)
+        # on both sides of matrix_sparseness = 0.1 (bidirectional ring of >= 20 nodes: fill = 2/n <= 0.1)
+        ring = of(0); n0 = len(ring)
+        r = rng.random()
+        if r < 0.4:
+            for a in range(n0):
+                edges.append([ring[a], ring[(a + 1) % n0], wq()]); edges.append([ring[(a + 1) % n0], ring[a], wq()])
+        else:
+            want = rng.randint(n0 + 1, max(n0 + 2, int(0.13 * n0 * n0)))
+            for t in ring:                         # every unit is a target at least once ...
+                edges.append([rng.choice(ring), t, wq()])
+            while len(edges) < want:               # ... and some of them several times
+                edges.append([rng.choice(ring), rng.choice(ring), wq()])
     elif kind == "fanout":
         tg = of(0); rng.shuffle(tg)
         for t in tg[:rng.choice([9, 9, 10, 11, 12])]:
             edges.append([of(1)[0], t, wq()])
         if rng.random() < 0.3:
             edges.append([of(1)[0], tg[0], wq()])   # a repeated target: dot branch again
-    dens = rng.choice([0.0, 0.05] if kind in ("sparse", "fanout", "perm") else [0.05, 0.15, 0.3, 0.6, 1.0])
+    dens = rng.choice([0.0, 0.05] if kind in ("sparse", "fanout", "perm") else [0.0] if kind == "ring" else [0.05, 0.15, 0.3, 0.6, 1.0])
     for s in range(N):
         for t in range(N):
             if kind in ("sparse", "fanout") and nodes[t][0] == 0 and nodes[s][0] == 1:
@@ -461,13 +522,16 @@ def gen_case(rng, kind="mixed"):
                 continue
             if rng.random() < dens:
                 edges.append([s, t, wq()])
-    if rng.random() < 0.4 and edges and kind not in ("sparse", "perm"):
+    if kind == "ring" and ncl > 1:                 # a little input from the small class as well
+        for _ in range(rng.randint(0, 3)):
+            edges.append([rng.choice(of(1)), rng.choice(of(0)), wq()])
+    if rng.random() < 0.4 and edges and kind not in ("sparse", "perm", "ring"):
         for _ in range(rng.randint(1, 3)):        # parallel edges
             e = rng.choice(edges)
             edges.append([e[0], e[1], wq()])
     if kind != "perm":
         rng.shuffle(edges)
-    edges = edges[:60]
+    edges = edges[:60] if kind != "ring" else edges[:90]
     if rng.random() < 0.35:                        # edges written without a 'weight' entry (default 1), mixed with weighted ones
         for e in edges:
             if rng.random() < 0.35:
@@ -493,6 +557,12 @@ def gen_case(rng, kind="mixed"):
     if kind == "traj":
         case["traj"] = dict(h="1/4", steps=4)
         case["dn"] = True
+    if base_kind == "seq":
+        # a sequence of compilations of ONE template object, both orders, 2-3 steps; in_place=False only for a non-vectorized
+        # step (its unit positions are read from the returned state map; a vectorized step needs the template's own maps)
+        first = rng.random() < 0.6
+        order = [first, not first] + ([first] if rng.random() < 0.3 else [])
+        case["seq"] = [[int(v), 1 if (v or k_ == 0 or rng.random() < 0.6) else 0] for k_, v in enumerate(order)]
     return case
 
 def nontrivial(case):
@@ -608,7 +678,7 @@ def shrink(ctx, case):
             return False
         budget[0] -= 1
         r = run_impl(ctx, "c04", "impl", [c], nworkers=1)[0]
-        return "err" in r or (mo_disagrees(c, r) if mo else py_disagrees(c, r))
+        return "err" in r or (mo_disagrees(c, r) if mo else (py_disagrees(c, r) or seq_disagrees(c, r)))
     if not fails(best):
         return case
     chunk = max(1, len(best["edges"]) // 2)
@@ -633,6 +703,17 @@ def _mixed_group(c):
         seen.setdefault(key, set()).add(w is None)
     return any(len(v) == 2 for v in seen.values())
 
+def _sparse_fanin(c):
+    """a (source class, target class, variable) group with a repeated target and fill = E/(distinct targets x distinct sources) <= 0.1"""
+    g = {}
+    for s_, t, w, sv in c["edges"]:
+        g.setdefault((c["nodes"][s_][0], c["nodes"][t][0], sv), []).append((s_, t))
+    for l in g.values():
+        ts, ss = {t for _, t in l}, {s_ for s_, _ in l}
+        if len(ts) < len(l) and 10 * len(l) <= len(ts) * len(ss):
+            return True
+    return False
+
 def _mixed_sv(c):
     """one (source class, target class) pair is fed through both source variables (the D3 class, repaired by D59)"""
     seen = {}
@@ -652,8 +733,8 @@ def raw_differs(r):
 def check(ctx):
     pr = proof_gate(ctx, NEEDS)
     problem = proof_problem(pr)
-    plan = dict(mixed=90, clean=40, sparse=16, perm=24, fanout=10, traj=14, multiop=40) if ctx.tier == "quick" else \
-           dict(mixed=1400, clean=500, sparse=250, perm=300, fanout=150, traj=200, multiop=500)
+    plan = dict(mixed=80, clean=30, sparse=14, perm=26, ring=12, fanout=8, traj=12, multiop=34, seq=24) if ctx.tier == "quick" else \
+           dict(mixed=1400, clean=500, sparse=250, perm=300, ring=200, fanout=150, traj=200, multiop=500, seq=300)
     corpus_files = []
     if ctx.replay:
         rp = json.load(open(ctx.replay))
@@ -678,6 +759,10 @@ def check(ctx):
     for i in vec_ne_non:
         if i not in badS:
             badS.append(i)                          # cannot happen when the Coq comparison is right; never silently dropped
+    seq_bad = [i for i in good if cases[i].get("seq") and seq_disagrees(cases[i], outs[i])]
+    for i in seq_bad:
+        if i not in badS:
+            badS.append(i)
     mo_bad = [i for i in moi if mo_disagrees(cases[i], outs[i])]     # multi-operator node types: real vec vs real non-vec vs python sum
     badS += mo_bad
     for i in rawi:                                 # unmodelled family (D23): vec vs non-vec only
@@ -729,6 +814,10 @@ def check(ctx):
                 multi_operator=dict(cases=len(moi), mismatches=len(mo_bad),
                                     types_differing_only_in_multiplicity=sum(1 for i in moi if _mult_only(cases[i])),
                                     operator_rename_chains=sum(1 for i in moi if mo_rename_chain(cases[i]))),
+                compile_sequences=dict(cases=sum(1 for c in cases if c.get("seq")), mismatching=len(seq_bad),
+                                       vec_then_nonvec=sum(1 for c in cases if c.get("seq") and c["seq"][0][0] == 1),
+                                       with_in_place_false=sum(1 for c in cases if c.get("seq") and any(ip == 0 for _, ip in c["seq"]))),
+                sparse_fan_in_groups=sum(1 for c in cases if not c.get("raw") and not c.get("mo") and _sparse_fanin(c)),
                 mixed_source_variables=sum(1 for c in cases if not c.get("raw") and not c.get("mo") and _mixed_sv(c)),
                 max_nodes=max((len(c.get("nodes", [])) for c in cases), default=0))
     sample = dict(cases[-1]) if cases else {}
@@ -738,7 +827,9 @@ def check(ctx):
                         "template per class, polynomial dyadic equations (degree <= 3), optional algebraic output variable, edge patterns: random density "
                         "0.05-1.0, >= 10 edges with distinct targets (indexed branch), single-unit fan-out to 9-12 units (D32 boundary), self-connections, "
                         "fan-in from several classes, parallel edges, edges without a weight entry mixed with weighted ones in one group (both orders), "
-                        ">= 10 one-to-one edges covering a whole vector in permuted order (ends fixed / last fixed / identity / arbitrary); "
+                        ">= 10 one-to-one edges covering a whole vector in permuted order (ends fixed / last fixed / identity / arbitrary; sorted source indices "
+                        "with repeats); rings / random sparse graphs of 14-24 units with fan-in and fill E/(targets x sources) on both sides of 0.1; "
+                        "sequences of 2-3 compilations of ONE template object (vec->non-vec, non-vec->vec, in_place True/False, clear=True); "
                         "multiop stream (not model-tied): node types of 1-3 S operators + 1 M operator, structurally identical operators under "
                         "different names, types differing only in operator multiplicity, compared vec vs non-vec vs python sum; each compiled with vectorize=True and False (default backend, float64), vector field at "
                         "2 random dyadic states (+ Euler trajectories through run() for the linear subset); a circuit is non-trivial when some class has >= 2 "
